@@ -41,6 +41,33 @@ fn all_blank(bytes: &[u8], from: usize, to: usize) -> bool {
     chk(0) && chk(1) && chk(2) && chk(3) && chk(4)
 }
 
+/// number of line feeds in bytes[from..to] (straight-line over at most 5 positions)
+fn count_nl(bytes: &[u8], from: usize, to: usize) -> usize {
+    let c = |i: usize| (i >= from && i < to && i < bytes.len() && bytes[i] == b'\n') as usize;
+    c(0) + c(1) + c(2) + c(3) + c(4)
+}
+
+/// a recovered comment is a whole comment: a line comment runs to the end of its line (and not
+/// beyond), a block comment to its terminator
+fn whole_comment(bytes: &[u8], at: usize, c: &str) -> bool {
+    let end = at + c.len();
+    let cb = c.as_bytes();
+    // straight-line: c has at most 5 bytes here
+    let has_nl = (cb.len() > 0 && cb[0] == b'\n') || (cb.len() > 1 && cb[1] == b'\n') || (cb.len() > 2 && cb[2] == b'\n')
+        || (cb.len() > 3 && cb[3] == b'\n') || (cb.len() > 4 && cb[4] == b'\n');
+    if c.starts_with("//") {
+        // ends at a line end, or only trailing blanks of the whole text follow (they are trimmed)
+        let sp = |i: usize| i < end || i >= bytes.len() || bytes[i] == b' ' || bytes[i] == b'\r';
+        let at_eol = end == bytes.len()
+            || bytes[end] == b'\n'
+            || (bytes[end] == b'\r' && end + 1 < bytes.len() && bytes[end + 1] == b'\n')
+            || (sp(0) && sp(1) && sp(2) && sp(3) && sp(4));
+        !has_nl && at_eol
+    } else {
+        c.len() >= 3 && cb[cb.len() - 2] == b'*' && cb[cb.len() - 1] == b'/'
+    }
+}
+
 fn back_step(input: &'static str) -> u8 {
     let bytes = input.as_bytes();
     let mut it = CommentIter { src: input };
@@ -58,14 +85,23 @@ fn back_step(input: &'static str) -> u8 {
             assert!(all_blank(bytes, rest.len(), at), "only blanks between rest and item");
             assert!(all_blank(bytes, at + c.len(), input.len()), "only blanks after the item");
             assert!(c.starts_with("//") || c.starts_with("/*"), "a non-empty item is a comment");
+            assert!(whole_comment(bytes, at, c), "the item is one whole comment");
+            // line accounting: an empty item stands for one line end that is NOT the end of a
+            // comment line.  A line comment takes exactly its own line end with it, a block
+            // comment none; otherwise the formatter would invent or lose blank lines.
+            assert!(count_nl(bytes, rest.len(), at) == 0, "no line end is consumed before the item");
+            let own = if c.starts_with("//") { 1 } else { 0 };
+            assert!(count_nl(bytes, at + c.len(), input.len()) == own, "a line comment takes exactly its own line end");
         }
         Some(_) => {
             // an empty item stands for one line end; at most blanks are consumed
             assert!(all_blank(bytes, rest.len(), input.len()), "an empty item consumes blanks only");
             assert!(rest.len() < input.len(), "progress");
+            assert!(count_nl(bytes, rest.len(), input.len()) == 1, "an empty item is exactly one line end");
         }
         None => {
             assert!(all_blank(bytes, rest.len(), input.len()), "None consumes blanks only");
+            assert!(count_nl(bytes, rest.len(), input.len()) == 0, "None consumes no line end");
         }
     }
     code
@@ -78,7 +114,8 @@ fn fwd_step(input: &'static str) -> u8 {
     let rest = it.src;
     let code: u8 = match item { None => 0, Some(c) if c.is_empty() => 1, Some(_) => 2 };
     assert!(rest.len() <= input.len());
-    let rest_at = if rest.is_empty() { input.len() } else { offset_in(input, rest) };
+    // `rest` is always a sub-slice of the input (the iterator only ever re-slices its `src`)
+    let rest_at = offset_in(input, rest);
     assert!(rest_at + rest.len() <= input.len(), "rest lies inside the input");
     assert!(all_blank(bytes, rest_at + rest.len(), input.len()), "rest is a suffix, modulo trailing blanks");
     match item {
@@ -88,12 +125,30 @@ fn fwd_step(input: &'static str) -> u8 {
             assert!(all_blank(bytes, 0, at), "only blanks before the item");
             assert!(all_blank(bytes, at + c.len(), rest_at), "only blanks between item and rest");
             assert!(c.starts_with("//") || c.starts_with("/*"), "a non-empty item is a comment");
+            assert!(whole_comment(bytes, at, c), "the item is one whole comment");
+            let end = at + c.len();
+            assert!(count_nl(bytes, 0, at) == 0, "no line end is consumed before the item");
+            // a line comment takes the line end that terminates it (LF or CRLF) with it, so that
+            // this line end is not reported as a blank line by the next step
+            let own = if !c.starts_with("//") {
+                0
+            } else if end < bytes.len() && bytes[end] == b'\n' {
+                1
+            } else if end + 1 < bytes.len() && bytes[end] == b'\r' && bytes[end + 1] == b'\n' {
+                2
+            } else {
+                0
+            };
+            assert!(count_nl(bytes, end, rest_at) == (own > 0) as usize, "a line comment takes exactly its own line end");
+            assert!(own == 0 || rest_at == end + own, "the rest starts right after the comment's line end");
         }
         Some(_) => {
             assert!(all_blank(bytes, 0, rest_at), "blank line");
+            assert!(count_nl(bytes, 0, rest_at) == 1, "an empty item is exactly one line end");
         }
         None => {
             assert!(all_blank(bytes, 0, rest_at), "None consumes blanks only");
+            assert!(count_nl(bytes, 0, rest_at) == 0, "None consumes no line end");
         }
     }
     code
